@@ -60,6 +60,7 @@ PartitionFails(r, negated) ==
     \o Clause(tag \o "neg_only_negative", \A c \in Rows(ng) : c.sign = "neg")
 
 \* ---- symmetry (Polarity!NegateRun, reported clause by clause) -----------
+\* "info:" clauses are the strict (1 ppm) level: reported, never a verdict.
 SymmetryFails(r) ==
     LET A == Ref(r, FALSE).fx
         B == Ref(r, TRUE).fx
@@ -67,12 +68,13 @@ SymmetryFails(r) ==
     IF Len(A) # Len(B) THEN <<"negated:same_number_of_rows">> ELSE
     Clause("negated:same_island_and_source_numbers", AllPairs(A, B, SameIds))
     \o Clause("negated:same_flags", AllPairs(A, B, SameFlags))
-    \o Clause("negated:peak_flux_negated", AllPairs(A, B, PeakNegated))
-    \o Clause("negated:int_flux_negated", AllPairs(A, B, IntNegated))
-    \o Clause("negated:same_position", AllPairs(A, B, SamePosition))
-    \o Clause("negated:same_shape", AllPairs(A, B, SameShape))
-    \o Clause("negated:same_errors", AllPairs(A, B, SameErrors))
+    \o Clause("negated:peak_flux_negated", AllPairsBl(A, B, PeakNegated))
+    \o Clause("negated:int_flux_negated", AllPairsBl(A, B, IntNegated))
+    \o Clause("negated:same_position", AllPairsBl(A, B, SamePosition))
+    \o Clause("negated:same_shape", AllPairsBl(A, B, SameShape))
+    \o Clause("negated:same_errors", AllPairsBl(A, B, SameErrors))
     \o Clause("negated:NegateRun", NegateRun(A, B))
+    \o Clause("info:strict_1ppm_NegateRun", NegateRunStrict(A, B))
 
 Fails(r) ==
     IF r.err # "" THEN <<"runs_completed">> ELSE
